@@ -212,19 +212,28 @@ def encrypt_json(
     elif registry is None:
         registry = default_registry
 
-    for recipient in obj.recipients:
-        if sender_key and not recipient.sender_key:
-            recipient.sender_key = _guess_sender_key(recipient, sender_key, True)
-        if not recipient.recipient_key:
-            assert public_key is not None
-            key = guess_key(public_key, recipient, True)
-            key.check_use("enc")
-            recipient.recipient_key = key
-        else:
-            # a key attached with ``add_recipient(header, key)`` must be an encryption key too
-            recipient.recipient_key.check_use("enc")
+    # keys taken from the arguments of this call are attached for this call only:
+    # the same object may be encrypted again with other keys
+    attached: list[tuple[Recipient[Key], str]] = []
+    try:
+        for recipient in obj.recipients:
+            if sender_key and not recipient.sender_key:
+                recipient.sender_key = _guess_sender_key(recipient, sender_key, True)
+                attached.append((recipient, "sender_key"))
+            if not recipient.recipient_key:
+                assert public_key is not None
+                key = guess_key(public_key, recipient, True)
+                key.check_use("enc")
+                recipient.recipient_key = key
+                attached.append((recipient, "recipient_key"))
+            else:
+                # a key attached with ``add_recipient(header, key)`` must be an encryption key too
+                recipient.recipient_key.check_use("enc")
 
-    perform_encrypt(obj, registry)
+        perform_encrypt(obj, registry)
+    finally:
+        for recipient, name in attached:
+            setattr(recipient, name, None)
     if isinstance(obj, GeneralJSONEncryption):
         return represent_general_json(obj)
     return represent_flattened_json(obj)
